@@ -27,8 +27,63 @@ def finding_key(req, obs, detail):
     return "input " + "\t".join(f[1:4])
 
 
+def _spans(lines):
+    """statement spans of generated source (one statement per line, braces on their own lines): (first, last) line
+    indices of single-line statements and of `header { ... }` (+ `else { ... }`) groups"""
+    def block_end(j):
+        depth = 0
+        while j < len(lines):
+            depth += lines[j].count("{") - lines[j].count("}")
+            if depth <= 0:
+                return j
+            j += 1
+        return None
+    out = []
+    for i, ln in enumerate(lines):
+        st = ln.strip()
+        if st in ("", "{", "}", "else") or st.startswith("}"):
+            continue
+        if i + 1 < len(lines) and lines[i + 1].strip() == "{":
+            e = block_end(i + 1)
+            if e is None:
+                continue
+            if e + 2 < len(lines) and lines[e + 1].strip() == "else" and lines[e + 2].strip() == "{":
+                e2 = block_end(e + 2)
+                if e2 is not None:
+                    out.append((i, e2))        # whole if/else
+                    out.append((e + 1, e2))    # only the else branch
+                    continue
+            out.append((i, e))
+        else:
+            out.append((i, i))
+    return out
+
+
+def shrink_v(req):
+    """vector stream: one argument vector, then whole definitions, then statement groups (largest first)"""
+    f = _fields(req)
+    vecs = f[3].split(";") if f[3] else []
+    if len(vecs) > 1:
+        for v in vecs:
+            yield "\t".join([f[0], f[1], f[2], v, "-", "-"])
+    chunks = f[1].split("\\n\\n")
+    for i in range(len(chunks)):
+        if not chunks[i].strip() or len(chunks) == 1:
+            continue
+        yield "\t".join([f[0], "\\n\\n".join(chunks[:i] + chunks[i + 1:]), f[2], f[3], "-", "-"])
+    lines = f[1].split("\\n")
+    spans = sorted(_spans(lines), key=lambda s: (s[0] - s[1], s[0]))
+    for (a, b) in spans:
+        if lines[a] and not lines[a].startswith(" ") and not lines[a].startswith("static") and a != b:
+            continue  # a whole function / struct: handled as a chunk
+        yield "\t".join([f[0], "\\n".join(lines[:a] + lines[b + 1:]), f[2], f[3], "-", "-"])
+
+
 def shrink(req):
     """drop one source line at a time (the harness recomputes ctx and ir from the source)"""
+    if req.startswith("C01.vfn\t"):
+        yield from shrink_v(req)
+        return
     f = _fields(req)
     # whole definitions first (never the function under test)
     chunks = f[1].split("\\n\\n")
@@ -55,6 +110,14 @@ def custom(ctx):
         floor = 0.9
         if ans.count("wt") < floor * max(1, len(reqs) - ans.count("unsupported")):
             ctx.broken.append("coverage: fewer than 90% of the explored well-typed programs satisfy the theorems' hypotheses")
+    # the same for the vector layer (hypotheses of gen_sem_vec_expr: VIr.typeOf + VIr.litOK)
+    vreqs = [r for r in ctx.distinct if r.startswith("C01.vex\t") and r.split("\t")[2] != "-" and r.split("\t")[4] != "-"]
+    if vreqs:
+        ans = ctx.run_model(["C01.vwt" + r[len("C01.vex"):] for r in vreqs])
+        ctx.extra["vector_theorem_hypotheses"] = {"requests": len(vreqs), "wt": ans.count("wt"), "not_wt": ans.count("not-wt"),
+                                                  "outside_layer": ans.count("unsupported")}
+        if ans.count("wt") < 0.9 * max(1, len(vreqs) - ans.count("unsupported")):
+            ctx.broken.append("coverage: fewer than 90% of the explored vector expressions satisfy gen_sem_vec_expr's hypotheses")
 
 
 def _esc(src):
@@ -90,14 +153,19 @@ def search(ctx):
 
 SPEC = {
     "id": "C01",
-    "gens": ["HlslGenTables", "HlslIntrinsicTables", "FmtTables", "ParseTables"],
-    "lean_modules": ["RsslVerif.Thm.C01", "RsslVerif.Thm.C09"],
+    "gens": ["HlslGenTables", "HlslIntrinsicTables", "HlslVecTables", "FmtTables", "ParseTables"],
+    "lean_modules": ["RsslVerif.Thm.C01", "RsslVerif.Thm.C01Vec", "RsslVerif.Thm.C09"],
     "theorems": [T + n for n in [
         "op_table_is_identity", "op_table_injective", "intrinsic_table_is_identity", "exporter_shape_as_modelled",
         "literal_value_preserved", "literal_total", "literal_int32_min",
         "gen_sem_expr", "gen_sem_expr_plain", "gen_sem_stmt", "gen_sem_stmts", "scope_block_push_is_append",
         "gen_sem_func", "gen_sem_program",
-        "cast_to_literal_dropped_changes_meaning"]] + [
+        "cast_to_literal_dropped_changes_meaning",
+        # vector layer (Thm/C01Vec.lean): shape-changing casts, swizzles, numeric constructors, component-wise operators
+        "exporter_vec_shape_as_modelled", "swizzle_letters_are_identity", "vector_type_names_roundtrip",
+        "vector_intrinsic_table_is_identity", "wide_constants_keep_kind_and_payload",
+        "gen_sem_vec_expr", "gen_sem_vec_expr_plain", "gen_sem_vec_assign", "scalar_cast_then_widen_differs",
+        "dropping_inner_shape_cast_changes_meaning", "literal_vector_cast_panics"]] + [
         # the text leg (printing the exported tree and reading it back) is property C09's; its table obligations are
         # C01 obligations too: a change of the printer's precedence / associativity tables breaks them
         "RsslVerif.Thm.C09." + n for n in ["tables_agree", "assoc_agrees", "roundtrip_expr_partial", "paren_rule_matches_grammar"]],
@@ -107,46 +175,72 @@ SPEC = {
     "shrink": shrink,
     "search": search,
     "custom": custom,
-    "rule": "generated well-typed RSSL programs of the scalar subset (bool/int/uint/float; every statement form, all operators, "
-            "implicit and explicit conversions, ternary, comma, user functions with in/out/inout, static globals) run through the "
-            "real front end; one request per user function x 8 argument vectors (zeros, edge values, random bits); the model "
-            "recomputes the exporter's syntax tree from the serialised IR and runs both semantics; the oracle evaluates the IR and "
-            "the re-parsed emitted text of both HLSL flavours with independent Rust evaluators; plus, in every tier, the exhaustive "
-            "operator-nesting stream (every ordered pair of the 18 int/bool binary operators in both nestings, unary x binary, binary / "
-            "ternary / comma / assignment nestings; 1294 one-function programs on a 14-vector grid); non-trivial = function in the "
+    "rule": "three generated streams run through the real front end and the real HLSL exporter (both flavours): (1) C01.fn — "
+            "well-typed RSSL programs of the scalar subset (bool/int/uint/float; every statement form, all operators, implicit and "
+            "explicit conversions, ternary, comma, user functions with in/out/inout, static globals), one request per user function x "
+            "8 argument vectors; the model recomputes the exporter's syntax tree from the serialised IR and runs both semantics; "
+            "(2) C01.vfn — programs with vectors (bool/int/uint/float x 2..4), matrices, swizzles (read and write), subscripts, "
+            "numeric constructors, shape-changing casts incl. chains, component-wise operators with scalar splatting / truncation, "
+            "?: on vectors, structs (members, aggregate initialisers, methods with implicit `this`), local and global arrays, enums, "
+            "default parameters, overloaded functions, function templates, out/inout vector parameters, vector / struct / array "
+            "static globals, the pure built-ins on vectors (uninterpreted); 6 argument vectors per function; judged by two independent "
+            "Rust evaluators (typed IR vs re-parsed emitted text under HLSL's rules); the Lean model answers `unsupported-op`; "
+            "(3) C01.vex — expression functions of the Lean vector layer (casts, swizzles, constructors, component-wise operators, "
+            "&& ||, ?:, scalar sub-expressions): the model's tree must equal the exporter's tree of the returned expression and "
+            "Lean's VIr.eval must equal the Rust IR evaluator on 6 argument vectors; plus, in every tier, the exhaustive "
+            "operator-nesting stream (1294 one-function programs on a 14-vector grid), the vector-syntax nesting stream (22 outer x 17 "
+            "inner forms: swizzle / subscript / cast / constructor / call / prefix / postfix / assignment / comma / ?: in each other, "
+            "374 programs on 3 vectors) and the corpus; non-trivial = function in the "
             "modelled subset, exported, and at least one vector ran to completion",
-    "level_text": "Proof for the scalar subset (bool/int/uint/float, literal int/float; constants, locals, static globals, every "
-                  "IntrinsicOp the exporter accepts, ?:, comma, casts, user-function calls with in/out/inout; expression / declaration / "
-                  "block / if / if-else / for / while / do-while / break / continue / return): the model of generate_expression / "
-                  "_literal / _statement / _for_init / _function is proved, by induction over expressions, statements and call depth, "
-                  "to emit syntax whose C-like semantics (names, literal suffixes, usual arithmetic conversions, operator chosen by "
-                  "token and static operand types) gives bit-identical return value, out/inout values and final globals to the typed "
-                  "IR semantics, for every interpretation of the float / conversion / integer-division primitives and every loop "
-                  "fuel; the operator and literal tables are re-extracted from the source on every run; the model is compared with the "
-                  "real exporter's tree on generated programs and the real emitted text of both HLSL flavours is re-parsed and run by "
-                  "an independent evaluator. Partial: vectors, structs, arrays, enums, swizzles, switch, templates, overloads, default "
-                  "parameters, intrinsic functions and 64/16-bit constants are outside the model; casts to a literal type are excluded "
-                  "(for them the negation is proved with a witness and replayed); printing/parsing of the tree is C09's, name hygiene "
-                  "C15's. The text leg is explicit but composed informally: text_sem = gen_sem (this property: exported tree vs IR) composed "
-                  "with C09's round trip (the printed tree parses back to the same tree: tables_agree, assoc_agrees, "
-                  "paren_rule_matches_grammar, roundtrip_expr_partial, cited here as obligations so that a change of the printer's "
-                  "precedence tables breaks a C01 obligation); there is no single Lean theorem stating the composition. On the test side "
-                  "every ordered pair of integer/bool binary operators in both nestings, unary-in-binary, binary/ternary/comma/assignment "
-                  "nestings (1294 fully parenthesised functions) are compiled and the emitted text of both flavours is evaluated against "
-                  "the IR on a fixed argument grid in every tier.",
+    "level_text": "Scalar subset (bool/int/uint/float, literal int/float; constants, locals, static globals, every IntrinsicOp the "
+                  "exporter accepts, ?:, comma, casts, calls with in/out/inout, 46 pure built-ins; all statement forms incl. switch): the "
+                  "model of generate_expression / _literal / _statement / _for_init / _function is proved, by induction over "
+                  "expressions, statements and call depth, to emit syntax whose C-like semantics gives bit-identical return value, "
+                  "out/inout values and final globals to the typed IR semantics, for every interpretation of the float / conversion / "
+                  "integer-division primitives and every loop fuel (gen_sem_expr … gen_sem_program). Vector layer (Thm/C01Vec): for "
+                  "every expression built from casts between any scalar / vector types in any nesting, swizzles, numeric constructors "
+                  "with any slot partition, component-wise unary / binary / comparison operators, && ||, ?: with vector arms, vector "
+                  "variables and scalar sub-expressions of the scalar model, the model of the Cast / Swizzle / Constructor arms and of "
+                  "generate_type's Vector arm is proved (gen_sem_vec_expr, mutual induction over VExpr / VSlots re-using sim_expr at "
+                  "the scalar leaves) to emit a tree whose HLSL meaning (static types, usual arithmetic conversions extended to vectors, "
+                  "splat / truncate / first-component conversions, flattening constructors, .xyzw/.rgba members) equals the IR value "
+                  "and scalar store for every value of the vector variables; statement-level assignment and compound assignment to a "
+                  "vector variable or a swizzle of one (swizzle *write*) update the vector store identically (gen_sem_vec_assign); "
+                  "swizzle letters, vector type names and the 11 vector-only "
+                  "built-in names are proved to round-trip; cast chains are proved not collapsible (scalar_cast_then_widen_differs, "
+                  "dropping_inner_shape_cast_changes_meaning: the tree without the inner cast evaluates differently — seeded mutant "
+                  "C01-2 also breaks exporter_vec_shape_as_modelled and exporter_shape_as_modelled). Operator, literal, intrinsic, "
+                  "swizzle tables and the shapes of the arms are re-extracted from the source on every run; both models are compared "
+                  "with the real exporter's trees and the Lean IR semantics with the harness's evaluators on generated programs. "
+                  "Partial with respect to the property's quantifier: the vector layer has no assignment nested inside expressions, no "
+                  "increment of vectors, no matrices, structs, arrays, enums, methods, templates, default parameters, overloads, vector built-ins — "
+                  "those are covered by the C01.vfn stream only (test, two independent evaluators, both flavours, bit-exact), as are "
+                  "16/64-bit constants not at all; casts to a literal type are excluded (negation proved with a witness and replayed; "
+                  "casts to a *vector* of a literal type panic the exporter: proved as literal_vector_cast_panics, known finding); "
+                  "printing/parsing of the tree is C09's (cited obligations tables_agree, assoc_agrees, paren_rule_matches_grammar, "
+                  "roundtrip_expr_partial; composed informally), name hygiene C15's.",
     "trusted_base": [
         "Lean 4.33 kernel; axioms propext / Classical.choice / Quot.sound only (audited by #print axioms)",
         "tools/gens/c01.py (HlslGenTables: IntrinsicOp / UnaryOp / BinOp / Literal / Constant variants, generate_intrinsic_op's form "
-        "table, generate_literal's arms and guards, the shape of the Sequence / Cast / ternary arms, generate_scalar_type) — re-run on "
-        "/repo's working tree every time",
-        "hand-written Model/GenHlsl.lean mirrors generate_expression / _literal / _statement / _for_init / _function for the scalar "
-        "subset; tied to the code by the correspondence run (exporter tree via hook verif_generate_ast)",
-        "Spec/Sem*.lean: our reading of RSSL's typed semantics and of HLSL's C-like semantics (literal int adapts to the other "
-        "operand, usual arithmetic conversions, HLSL 2021 short-circuit, shift count masked to 5 bits)",
+        "table, generate_literal's arms and guards, the shape of the Sequence / Cast / ternary arms, generate_scalar_type; "
+        "HlslIntrinsicTables; HlslVecTables: SwizzleSlot, the letters of the Swizzle arm, textual shape of the Swizzle / Constructor / "
+        "Cast arms of generate_expression and of the Vector arm of generate_type_impl) — re-run on /repo's working tree every time",
+        "hand-written Model/GenHlsl.lean (scalar subset) and Model/GenHlslVec.lean (Cast / Swizzle / Constructor arms, vector type "
+        "names) mirror the exporter; tied to the code by the correspondence runs C01.fn / C01.vex (exporter tree via hook "
+        "verif_generate_ast) and by the re-extracted shape facts",
+        "Spec/Sem*.lean and Spec/SemVec.lean: our reading of RSSL's typed semantics (a Cast converts by the value's shape: scalar -> "
+        "vector replicates, vector -> scalar takes the first component, vector -> shorter vector truncates: typer/src/casting.rs "
+        "DimensionCast) and of HLSL's C-like semantics (literal int adapts to the other operand, usual arithmetic conversions, a "
+        "scalar operand is replicated, the longer vector truncated, HLSL 2021 short-circuit on scalars only, shift count masked)",
+        "for the forms outside the Lean models (C01.vfn): harness/src/c01/virev.rs and vtxev.rs (two Rust evaluators written from the "
+        "IR's and HLSL's rules respectively) and the value generator; a wrong reading shared by both would be invisible",
         "names: the emitted identifiers denote the IR's entities (property C15); printing/parsing of the tree (property C09)",
     ],
     "assumptions": [
-        "float arithmetic, int<->float conversions and integer division are abstract primitives shared by both semantics",
+        "float arithmetic, int<->float conversions, integer division and every built-in function are abstract primitives shared by "
+        "both semantics (component-wise application of the same primitive for vectors; vector built-ins uninterpreted)",
         "no recursion (HLSL forbids it): call depth bounded by the fuel of Ir.phi / Ast.phi",
+        "vector variables are assigned only by a statement-level assignment in the Lean vector layer (none nested in an expression)",
+        "an `out` parameter is uninitialised on entry of the callee (both vector-stream evaluators); evaluation order left to right",
     ],
 }
